@@ -228,6 +228,8 @@ def unify_types(a, b):
         return OptT(i) if i is not None else None
     if {a, b} == {INT, BOOL}:
         return INT
+    if isinstance(a, ObjT) and isinstance(b, ObjT) and {a.family, b.family} == {'Type', 'Live'}:
+        return ObjT('Live')
     if isinstance(a, TupT) and isinstance(b, TupT) and len(a.items) == len(b.items):
         its = [unify_types(x, y) for x, y in zip(a.items, b.items)]
         if any(i is None for i in its):
@@ -292,6 +294,8 @@ def pack(v, t):
                               for i, (it, tt) in enumerate(zip(v.t.items, t.items))])
         if isinstance(t, SeqT) and isinstance(v.t, TupT):
             return pack(MList([SV(it, tup_get(v.t, v.z, i)) for i, it in enumerate(v.t.items)]), t)
+        if isinstance(t, ObjT) and isinstance(v.t, ObjT) and (v.t.family, t.family) == ('Type', 'Live'):
+            return v.z          # a type object is a live object (both are references)
         raise Unsupported('cannot use %s where %s is expected' % (v.t, t))
     if v is MNONE:
         if isinstance(t, OptT):
